@@ -79,13 +79,13 @@ func zzvC04Scenarios() []zzvC04Scn {
 		{name: "P7-extend-race-two-bignames", preOpen: true, fill: 3, procs: [][]zzvOp4{{A(big, 1)}, {A(big2, 2)}}},
 		{name: "P8-extend-vs-small", preOpen: true, fill: 3, procs: [][]zzvOp4{{A(big, 1)}, {A("a", 2), A("b", 4)}}},
 		{name: "P12-pagetail-record-vs-extend", preOpen: true, fill: 3, tailPad: true, procs: [][]zzvOp4{{A("tail-name-16byte", 1)}, {A(big, 2)}}},
+		{name: "P9-three-procs-same-name", preOpen: true, procs: [][]zzvOp4{{A("a", 1)}, {A("a", 2)}, {A("a", 4)}}, thorough: true},
+		{name: "P10-three-procs-colliding", preOpen: true, procs: [][]zzvOp4{{A(k1, 1)}, {A(k2, 2)}, {A(k1, 4)}}, thorough: true},
+		{name: "P11-create-race-three", procs: [][]zzvOp4{{open, A("a", 1)}, {open, A("b", 2)}, {open, A("a", 4)}}, thorough: true},
 		// A's colliding chain grows twice beyond A's mapping while A is between reserving and linking its
 		// record: once into page 2 (B's first big record), and, after A's retry, into page 3
 		{name: "P13-chain-head-beyond-mapping-twice", preOpen: true, fill: 3, thorough: true,
 			procs: [][]zzvOp4{{A(kk[0], 1)}, {A(bigK[0], 2), A(zzvBig('D')[:4000], 4), A(zzvBig('E')[:4000], 8), A(zzvBig('F')[:4000], 16), A(bigK[1], 32)}}},
-		{name: "P9-three-procs-same-name", preOpen: true, procs: [][]zzvOp4{{A("a", 1)}, {A("a", 2)}, {A("a", 4)}}, thorough: true},
-		{name: "P10-three-procs-colliding", preOpen: true, procs: [][]zzvOp4{{A(k1, 1)}, {A(k2, 2)}, {A(k1, 4)}}, thorough: true},
-		{name: "P11-create-race-three", procs: [][]zzvOp4{{open, A("a", 1)}, {open, A("b", 2)}, {open, A("a", 4)}}, thorough: true},
 	}
 }
 
